@@ -7,13 +7,17 @@ import (
 	"crypto/sha256"
 	"encoding/hex"
 	"encoding/json"
+	"errors"
 	"flag"
 	"fmt"
 	"os"
+	"os/exec"
 	"path/filepath"
+	"regexp"
 	"runtime/pprof"
 	"sort"
 	"strconv"
+	"strings"
 	"sync"
 	"sync/atomic"
 	"time"
@@ -417,4 +421,128 @@ func (r *Run) ReadReplay(v any) (signature string, err error) {
 		return "", err
 	}
 	return doc.Signature, json.Unmarshal(doc.Witness, v)
+}
+
+// Supervise makes the process death of the driver itself an observed outcome. It returns at once
+// in the (re-executed) child, which then runs the workload; the parent never returns from it: it
+// relays the child's output and, if the child dies from a panic / fatal error raised while the
+// real code was serving a legitimate workload, reports a violation with the signature
+// "process-died:<normalised message>". Deaths that originate in the harness itself or in
+// pebble's build-tag-only invariant checks (-race builds) are "check broken"/inconclusive (exit 2).
+func (r *Run) Supervise() {
+	if os.Getenv("VERIF_SUPERVISED") != "" || r.Replay != "" || os.Getenv("VERIF_NO_SUPERVISE") != "" {
+		return
+	}
+	scratch := os.Getenv("SCRATCH")
+	if scratch == "" {
+		scratch = os.TempDir()
+	}
+	errPath := filepath.Join(scratch, fmt.Sprintf("%s-supervised-stderr.txt", r.Prop))
+	ef, err := os.Create(errPath)
+	if err != nil {
+		return // cannot supervise: run unsupervised
+	}
+	self, _ := os.Executable()
+	cmd := exec.Command(self, os.Args[1:]...)
+	cmd.Env = append(os.Environ(), "VERIF_SUPERVISED=1", "GOTRACEBACK=all")
+	cmd.Stdout = os.Stdout
+	cmd.Stderr = ef
+	runErr := cmd.Run()
+	ef.Close()
+	code := 0
+	if runErr != nil {
+		code = -1
+		var ee *exec.ExitError
+		if errors.As(runErr, &ee) {
+			code = ee.ExitCode()
+		}
+	}
+	b, _ := os.ReadFile(errPath)
+	es := string(b)
+	died := strings.Contains(es, "\npanic: ") || strings.HasPrefix(es, "panic: ") || strings.Contains(es, "fatal error: ")
+	if code == 0 || code == 1 || (code == 2 && !died) {
+		if len(es) > 0 && code != 0 {
+			fmt.Fprint(os.Stderr, tailString(es, 4000))
+		}
+		os.Exit(code)
+	}
+	msg := firstDeathLine(es)
+	tail := tailString(es, 200000)
+	fmt.Fprint(os.Stderr, headString(es, 6000))
+	switch {
+	case strings.Contains(es, "bound violation") && strings.Contains(es, "levelIter"),
+		strings.Contains(msg, "no progress for"):
+		fmt.Printf("INCONCLUSIVE property=%s driver died from a third-party build-tag-only assertion or a watchdog: %s\n", r.Prop, msg)
+		os.Exit(2)
+	case deathInHarness(es):
+		fmt.Printf("INCONCLUSIVE property=%s the harness itself panicked (check broken): %s\n", r.Prop, msg)
+		os.Exit(2)
+	}
+	r.Eval(1)
+	r.Nontrivial("process-died")
+	r.Nontrivial("process-died-2")
+	r.Sample(map[string]any{"outcome": "the process running the real engine died while serving a legitimate workload", "message": msg})
+	r.Violation("process-died:"+normaliseDeath(msg), "the process serving the workload died: "+msg, map[string]any{"stderr_head": headString(tail, 6000)})
+	r.floors = nil
+	os.Exit(r.finish())
+}
+
+func firstDeathLine(es string) string {
+	for _, ln := range strings.Split(es, "\n") {
+		if strings.HasPrefix(ln, "panic: ") || strings.HasPrefix(ln, "fatal error: ") {
+			return ln
+		}
+	}
+	return "(no panic line)"
+}
+
+var reDigits = regexp.MustCompile(`(0x[0-9a-fA-F]+|\d+)`)
+
+func normaliseDeath(msg string) string {
+	msg = reDigits.ReplaceAllString(msg, "N")
+	msg = strings.NewReplacer(" ", "-", "\t", "-", "/", "_", ":", "").Replace(msg)
+	if len(msg) > 90 {
+		msg = msg[:90]
+	}
+	return msg
+}
+
+// deathInHarness: the panicking goroutine's innermost non-runtime frame belongs to the harness.
+func deathInHarness(es string) bool {
+	i := strings.Index(es, "panic: ")
+	if j := strings.Index(es, "fatal error: "); i < 0 || (j >= 0 && j < i) {
+		i = j
+	}
+	if i < 0 {
+		return false
+	}
+	rest := es[i:]
+	k := strings.Index(rest, "goroutine ")
+	if k < 0 {
+		return false
+	}
+	for _, ln := range strings.Split(rest[k:], "\n")[1:] {
+		if ln == "" {
+			break
+		}
+		if strings.HasPrefix(ln, "\t") || strings.HasPrefix(ln, "panic(") || strings.HasPrefix(ln, "runtime.") || strings.HasPrefix(ln, "runtime/") || strings.HasPrefix(ln, "testing.") {
+			continue
+		}
+		return strings.HasPrefix(ln, "verifharness/") || strings.HasPrefix(ln, "main.")
+	}
+	return false
+}
+
+func tailString(s string, n int) string {
+	if len(s) > n {
+		return s[len(s)-n:]
+	}
+	return s
+}
+
+func headString(s string, n int) string {
+	if len(s) > n {
+		return s[:n]
+	}
+	return s
 }
